@@ -112,6 +112,14 @@ pub fn eval(ctx: &Ctx, c: &Case) -> Verdict {
     if c.fields.iter().any(|(k, v)| !k.is_ascii() || !v.is_ascii()) { classes.push("non-ascii"); }
     if c.fields.iter().any(|(k, v)| k.contains(' ') || v.contains(' ') || k.contains('+') || v.contains('+')) { classes.push("space-or-plus"); }
     if c.fields.len() >= 10 { classes.push("ten-or-more-fields"); }
+    // attribution to the listed finding is re-checked: the same case with the '%' of every "%<late code>" replaced by 'p' must pass;
+    // if it fails too, that (different) failure is reported
+    if late && problems.iter().any(|(sig, _)| sig == "pct-then-late-code") {
+        let defuse = |s: &str| { let mut d = s.to_string(); while has_pct_then_late_code(&d) { for code in LATE_CODES { d = d.replace(&format!("%{}", code), &format!("p{}", code)); } } d };
+        let mut seen = std::collections::HashSet::new();
+        let copy = Case { fields: c.fields.iter().map(|(k, v)| (defuse(k), defuse(v))).filter(|(k, _)| seen.insert(k.clone())).collect() };
+        if let Verdict::Fail { sig, detail } = eval(ctx, &copy) { return Verdict::fail(sig, format!("(on the copy of a pct-then-late-code case with those '%' replaced) {}", detail)); }
+    }
     ctx.judge(problems, nontrivial, classes)
 }
 
